@@ -238,15 +238,24 @@ func (f *Factory) All() []*Eth {
 
 // ---------------------------------------------------------------- devices
 
-// Dev implements device.DeviceInterface.
+// Dev implements device.DeviceInterface. During (optional) runs once, inside the first
+// GetOperState call: netIfa.DeviceUpdate makes that call after it has taken the interface lock, so
+// During is the place to let something happen WHILE a device update is being processed.
 type Dev struct {
-	Index uint64
-	Oper  uint8
-	Addrs []*bnet.Prefix
+	Index  uint64
+	Oper   uint8
+	Addrs  []*bnet.Prefix
+	During func()
+	once   sync.Once
 }
 
-func (d *Dev) GetIndex() uint64         { return d.Index }
-func (d *Dev) GetOperState() uint8      { return d.Oper }
+func (d *Dev) GetIndex() uint64 { return d.Index }
+func (d *Dev) GetOperState() uint8 {
+	if d.During != nil {
+		d.once.Do(d.During)
+	}
+	return d.Oper
+}
 func (d *Dev) GetAddrs() []*bnet.Prefix { return d.Addrs }
 
 // Devs implements device.Updater; updates are delivered by Update on the caller's goroutine.
@@ -304,7 +313,11 @@ var stackBuf = make([]byte, 1<<20)
 // package on its stack and is not parked in a channel operation performed directly by a
 // function of that package (the select of a service loop) or by Eth.RecvPacket; "" if none.
 // Goroutines whose stack contains the marker are ignored (the harness' own callers).
-func busyServerGoroutine() string {
+func busyServerGoroutine() string { return busyServerGoroutineOpt(false) }
+
+// allowBlocked: a goroutine waiting for a mutex, a read/write lock or a wait group also counts as
+// settled (it will not move until somebody else does)
+func busyServerGoroutineOpt(allowBlocked bool) string {
 	var n int
 	for {
 		n = runtime.Stack(stackBuf, true)
@@ -317,7 +330,7 @@ func busyServerGoroutine() string {
 		if !strings.Contains(blk, serverPkg) {
 			continue
 		}
-		if strings.Contains(blk, "verifharness/isisx.busyServerGoroutine") {
+		if strings.Contains(blk, "verifharness/isisx.busyServerGoroutineOpt") {
 			continue // the goroutine taking the dump (harness calling into the server synchronously)
 		}
 		lines := strings.SplitN(blk, "\n", 3)
@@ -335,6 +348,9 @@ func busyServerGoroutine() string {
 		top := lines[1]
 		parked := st == "select" || st == "chan receive"
 		direct := strings.HasPrefix(top, serverPkg) || strings.HasPrefix(top, selfPkg+"(*Eth).RecvPacket")
+		if allowBlocked && (strings.HasPrefix(st, "sync.") || st == "semacquire") {
+			continue
+		}
 		if !(parked && direct) {
 			return hdr + " " + top
 		}
@@ -349,6 +365,29 @@ func Quiesce() string {
 	spins := 0
 	for {
 		b := busyServerGoroutine()
+		if b == "" {
+			return ""
+		}
+		if time.Now().After(deadline) {
+			return b
+		}
+		spins++
+		if spins < 50 {
+			runtime.Gosched()
+		} else {
+			time.Sleep(50 * time.Microsecond)
+		}
+	}
+}
+
+// Settle waits until no goroutine of the IS-IS server (other than the caller's own) can make a step by
+// itself: each is parked in its service loop or waits for a lock / wait group. For use inside a
+// callback that runs while the server holds a lock. Returns "" or the goroutine that kept running.
+func Settle() string {
+	deadline := time.Now().Add(MaxWait)
+	spins := 0
+	for {
+		b := busyServerGoroutineOpt(true)
 		if b == "" {
 			return ""
 		}
